@@ -131,6 +131,7 @@ J gen_tunnel(uint64_t seed, const J &ov)
 		f.set("p_dup", r.chance(0.5) ? r.uniform() * 0.25 : 0.0);
 		f.set("p_delay", r.chance(0.5) ? r.uniform() * 0.3 : 0.0);
 		f.set("max_delay_us", (long long)(r.chance(0.5) ? r.range(1000, 300000) : r.range(300000, 30000000)));
+		if (ov.getb("trunc")) { f.set("p_trunc", r.uniform() * 0.3); f.set("p_flip", r.chance(0.5) ? r.uniform() * 0.1 : 0.0); }
 		cfg.set("faults", f);
 		cfg.set("dur_s", (int)(W + 40));
 		cfg.set("tmax_s", 700);
